@@ -114,6 +114,12 @@ def rand_case(rng, nested=False):
     shape = rng.choice(["fragment", "fragment", "list", "body", "html_full", "html_nohead", "html_head_late", "html_nobody", "html_deps_under", "two_roots",
                         "body_plus_meta_siblings", "html_plus_meta_siblings", "head_and_body"])
     kids = [rand_body_node(rng, ids, rng.choice([0, 1, 2, 3])) for _ in range(rng.randint(0, 4))]
+    if rng.random() < 0.02:
+        # a page that carries a great many dependencies (more than any fast path would expect), some names in several versions
+        for j in range(rng.choice([55, 90, 140])):
+            d_ = rand_dep(rng, ids)
+            d_["name"] = "many%02d" % (j % 47)
+            kids.insert(rng.randint(0, len(kids)), d_ if j % 3 else gen.TAG("div", d_, via_fn=False))
     if nested:
         kids.insert(rng.randint(0, len(kids)), rand_dep(rng, ids, nested_dep=True))
     user_head = [gen.TAG("title", {"k": "text", "s": "UT"}), gen.TAG("meta", attrs=[["name", {"t": "str", "s": "um"}]])][: rng.randint(0, 2)]
